@@ -67,6 +67,10 @@ CLAIMED = {
  'C04': ('fault_enumeration', 'kill / stop injection at instrumented points (the hook handler SIGKILLs its own process at the n-th hit) and at seeded random times, restart on the same job directory; parent-side oracle over lq.db rows, the origin log of both runs, the write-through event log and the WARC files left on disk',
          'Each pair (run 1 dies, run 2 restarts) is judged by set algebra: every valid row present at the death must be requested in run 2 and be gone at its quiescence; every row deleted before the death must have a matching complete response record in the files run 1 left; those files must parse record by record up to a single trailing partial member.',
          'A killed process, not a killed machine; kill points are the hook points of the claim/insert/fetch/feedback/finish/delete/add paths x occurrence; listed finding: in-progress seeds are skipped as seen after a restart when the local seencheck is on.', '4/C04'),
+
+ 'C06': ('exploration', 'bound monitors over the origin log and hook events of full-pipeline runs against an adversarial origin (positions and levels are encoded in the URLs) + stage-level hop-assignment oracle under max-hops x domains-crawl',
+         'Endless redirect chains (seed and asset level), loops, endlessly nested JSON/XML/M3U8, self references and always-failing URLs are served to the real pipeline; no chain position beyond max-redirect, no nesting level beyond 3, no retry index beyond max-retry, no more than 4*(max-redirect+1) reactor passes may be observed and every seed must finish; outlink hops are compared with the rule of the statement for every generated outlink.',
+         'Parameter values and server behaviours are a fixed generated family; depth rule only with domains-crawl off.', '4/C06'),
 }
 NOT_BUILT = 'check not built yet in this session (planned, see DESIGN.md section 4)'
 
